@@ -119,8 +119,12 @@ fn gen_tree(seed: u64, extra: usize, dpos: usize, up: bool) -> Tree {
     let mut layers: Vec<(String, String)> = Vec::new();
     let start = rng.below(pool.len());
     for i in 0..extra {
-        let (n, d) = pool[(start + i) % pool.len()];
-        layers.push((n.to_string(), d.to_string()));
+        if i < pool.len() {
+            let (n, d) = pool[(start + i) % pool.len()];
+            layers.push((n.to_string(), d.to_string()));
+        } else {
+            layers.push((format!("L{}", i), format!("glyphs.L{}", i)));
+        }
     }
     if up && !layers.is_empty() {
         // a directory that differs from the default layer's only by case
@@ -132,6 +136,7 @@ fn gen_tree(seed: u64, extra: usize, dpos: usize, up: bool) -> Tree {
     let pos = match dpos {
         1 => layers.len(),
         2 => layers.len() / 2 + layers.len() % 2,
+        3 => 0,
         _ => rpos,
     };
     layers.insert(pos.min(layers.len()), (dname.to_string(), "glyphs".to_string()));
@@ -148,7 +153,8 @@ fn gen_tree(seed: u64, extra: usize, dpos: usize, up: bool) -> Tree {
         format!("C{}", layers.iter().map(|(n, d)| format!("{}={}", hexs(n), hexs(d))).collect::<Vec<_>>().join("+")),
     );
     for (li, (_, d)) in layers.iter().enumerate() {
-        let ngl = rng.below(4);
+        // many-layer trees stay small: only the first few layers have glyphs
+        let ngl = if li < 5 { rng.below(4) } else { 0 };
         let mut names: Vec<String> = (0..ngl).map(|i| format!("{}{}", ["a", "B", "c.alt", "d"][i], li)).collect();
         names.sort();
         let mut entries = Vec::new();
@@ -217,69 +223,137 @@ fn tree_tok(t: &Tree) -> String {
     parts.join(",")
 }
 
+/// A request as a SEQUENCE of builder calls, applied in order:
+///   start  `A` all() | `N` none() | `Df` default()
+///   layers `L1`/`L0` layers(b), `D1`/`D0` default_layer(b), `Fn` filter by name, `Fd` by directory, `Ft` always true,
+///          `Ff` always false, `Fx` every directory but `glyphs`
+///   parts  `l` lib, `g` groups, `k` kerning, `f` features, `a` data, `i` images, each followed by `1`/`0`
+/// `sw`, `all`, `ld`, `custom` are what the DOCUMENTED meaning of each call, applied in order, leaves behind (the
+/// harness's own small interpreter: `layers(b)` sets "all layers" to b; `default_layer(b)` sets "the default layer" to b
+/// and switches "all layers" off; `filter_layers(p)` installs p and switches "all layers" off; nothing else is touched).
 struct Req {
+    calls: Vec<String>,
     sw: u32,
-    shape: u32,
+    all: bool,
+    ld: bool,
+    custom: Option<char>,
     name: String,
     dir: String,
 }
 
+const PARTS: [char; 6] = ['l', 'g', 'k', 'f', 'a', 'i'];
+
 impl Req {
-    fn build(&self) -> DataRequest<'_> {
-        let mut r = DataRequest::none()
-            .lib(self.sw & 1 != 0)
-            .groups(self.sw & 2 != 0)
-            .kerning(self.sw & 4 != 0)
-            .features(self.sw & 8 != 0)
-            .data(self.sw & 16 != 0)
-            .images(self.sw & 32 != 0);
-        let name = self.name.clone();
-        let dir = self.dir.clone();
-        r = match self.shape {
-            0 => r.layers(true),
-            1 => r.layers(false),
-            2 => r.default_layer(true),
-            3 => r.filter_layers(move |n, _| n == name),
-            4 => r.filter_layers(move |_, p| p == Path::new(&dir)),
-            5 => r.filter_layers(|_, _| true),
-            6 => r.filter_layers(|_, _| false),
-            7 => r.default_layer(true).filter_layers(move |n, _| n == name),
-            // builder order matters: `layers(true)` after a filter keeps the (now irrelevant) predicate;
-            // `default_layer(false)` switches `all` off as a side effect
-            8 => r.filter_layers(|_, _| false).layers(true),
-            9 => r.layers(true).default_layer(false),
-            // everything but the default layer: >= 2 layers kept while the default is filtered out
-            _ => r.filter_layers(|_, p| p != Path::new("glyphs")),
+    fn from_calls(calls: Vec<String>, name: String, dir: String) -> Req {
+        let mut r = Req { calls: calls.clone(), sw: 0, all: false, ld: false, custom: None, name, dir };
+        for c in &calls {
+            let b = c.ends_with('1');
+            let k = c.chars().next().unwrap();
+            match c.as_str() {
+                "A" | "Df" => {
+                    r.sw = 63;
+                    r.all = true;
+                    r.ld = false;
+                    r.custom = None;
+                }
+                "N" => {
+                    r.sw = 0;
+                    r.all = false;
+                    r.ld = false;
+                    r.custom = None;
+                }
+                "L1" | "L0" => r.all = b,
+                "D1" | "D0" => {
+                    r.ld = b;
+                    r.all = false;
+                }
+                _ if k == 'F' => {
+                    r.custom = c.chars().nth(1);
+                    r.all = false;
+                }
+                _ => {
+                    if let Some(bit) = PARTS.iter().position(|p| *p == k) {
+                        if b {
+                            r.sw |= 1 << bit;
+                        } else {
+                            r.sw &= !(1 << bit);
+                        }
+                    }
+                }
+            }
+        }
+        r
+    }
+    /// the older recipes (`sw` + `shape`) as call sequences
+    fn from_shape(sw: u32, shape: u32, name: String, dir: String) -> Req {
+        let mut calls = vec!["N".to_string()];
+        for (bit, p) in PARTS.iter().enumerate() {
+            calls.push(format!("{}{}", p, if sw & (1 << bit) != 0 { 1 } else { 0 }));
+        }
+        let tail: &[&str] = match shape {
+            0 => &["L1"],
+            1 => &["L0"],
+            2 => &["D1"],
+            3 => &["Fn"],
+            4 => &["Fd"],
+            5 => &["Ft"],
+            6 => &["Ff"],
+            7 => &["D1", "Fn"],
+            8 => &["Ff", "L1"],
+            9 => &["L1", "D0"],
+            _ => &["Fx"],
         };
+        calls.extend(tail.iter().map(|s| s.to_string()));
+        Req::from_calls(calls, name, dir)
+    }
+    fn build(&self) -> DataRequest<'_> {
+        let mut r = DataRequest::none();
+        for c in &self.calls {
+            let b = c.ends_with('1');
+            let name = self.name.clone();
+            let dir = self.dir.clone();
+            r = match c.as_str() {
+                "A" => DataRequest::all(),
+                "N" => DataRequest::none(),
+                "Df" => DataRequest::default(),
+                "L1" | "L0" => r.layers(b),
+                "D1" | "D0" => r.default_layer(b),
+                "Fn" => r.filter_layers(move |n, _| n == name),
+                "Fd" => r.filter_layers(move |_, p| p == Path::new(&dir)),
+                "Ft" => r.filter_layers(|_, _| true),
+                "Ff" => r.filter_layers(|_, _| false),
+                "Fx" => r.filter_layers(|_, p| p != Path::new("glyphs")),
+                "l1" | "l0" => r.lib(b),
+                "g1" | "g0" => r.groups(b),
+                "k1" | "k0" => r.kerning(b),
+                "f1" | "f0" => r.features(b),
+                "a1" | "a0" => r.data(b),
+                "i1" | "i0" => r.images(b),
+                _ => r,
+            };
+        }
         r
     }
     fn token(&self) -> String {
-        let (all, ld) = match self.shape {
-            0 | 8 => (1, 0),
-            2 | 7 => (0, 1),
-            _ => (0, 0),
+        let custom = match self.custom {
+            Some('n') => format!("n{}", hexs(&self.name)),
+            Some('d') => format!("d{}", hexs(&self.dir)),
+            Some(c) => c.to_string(),
+            None => "-".into(),
         };
-        let custom = match self.shape {
-            3 | 7 => format!("n{}", hexs(&self.name)),
-            4 => format!("d{}", hexs(&self.dir)),
-            5 => "t".into(),
-            6 | 8 => "f".into(),
-            10 => "x".into(),
-            _ => "-".into(),
-        };
-        format!("{}{}{}", all, ld, custom)
+        format!("{}{}{}", self.all as u8, self.ld as u8, custom)
     }
     /// the harness's own reading of "selected" (used only to decide what to overwrite with garbage)
     fn selects(&self, n: &str, d: &str) -> bool {
-        match self.shape {
-            0 | 5 | 8 => true,
-            1 | 6 | 9 => false,
-            10 => d != "glyphs",
-            2 => d == "glyphs",
-            3 => n == self.name,
-            4 => d == self.dir,
-            _ => d == "glyphs" || n == self.name,
-        }
+        self.all
+            || (self.ld && d == "glyphs")
+            || match self.custom {
+                Some('n') => n == self.name,
+                Some('d') => d == self.dir,
+                Some('t') => true,
+                Some('x') => d != "glyphs",
+                _ => false,
+            }
     }
 }
 
@@ -377,7 +451,12 @@ pub fn observe(toks: &[&str], scratch: &Path) -> String {
         t.files.retain(|k, _| !k.ends_with("layerinfo.plist"));
     }
     let (name, dir) = t.layers[pick % t.layers.len()].clone();
-    let req = Req { sw, shape, name, dir };
+    let seq = field(toks, "seq");
+    let req = if seq.is_empty() {
+        Req::from_shape(sw, shape, name, dir)
+    } else {
+        Req::from_calls(seq.split('.').map(|c| c.to_string()).collect(), name, dir)
+    };
     let dir_intact: PathBuf = scratch.join("t");
     write_tree(&dir_intact, &t);
     let full = load_desc(&dir_intact, None);
@@ -387,10 +466,11 @@ pub fn observe(toks: &[&str], scratch: &Path) -> String {
     let garb = load_desc(&dir_intact, Some(&req));
     rm_rf(&dir_intact);
     format!(
-        "TREE={} GTREE={} REQ={} | FULL={} | PART={} | GARB={}",
+        "TREE={} GTREE={} REQ={} SW={} | FULL={} | PART={} | GARB={}",
         tree_tok(&t),
         tree_tok(&g),
         req.token(),
+        req.sw,
         full,
         part,
         garb
@@ -417,6 +497,51 @@ pub fn gen(tier: &str, seed: u64, out: &mut dyn Write) {
                     "tree={} extra={} sw={} shape={} pick={} miss={} dpos={} up={}",
                     tseed, extra, sw, shape, pick, miss, dpos, up
                 );
+                let toks: Vec<&str> = recipe.split(' ').collect();
+                let obs = observe(&toks, &scratch);
+                writeln!(out, "C17 {} => {}", recipe, obs).unwrap();
+            }
+        }
+    }
+    // round 4: builder-call SEQUENCES (every sequence of 2 and 3 layer calls after all() and none(), repeated and
+    // contradicting calls included, plus sequences with part switches toggled back and forth) on a tree whose default
+    // layer is listed last; the expected request is what the documented meaning of each call, applied in order, gives
+    let lcalls = ["L1", "L0", "D1", "D0", "Fn", "Fx", "Ff", "Ft"];
+    let tseed = rng.next() % 1_000_000;
+    let mut seqs: Vec<String> = Vec::new();
+    for start in ["A", "N"] {
+        for a in lcalls {
+            for b in lcalls {
+                seqs.push(format!("{}.{}.{}", start, a, b));
+                for c in lcalls {
+                    seqs.push(format!("{}.{}.{}.{}", start, a, b, c));
+                }
+            }
+        }
+    }
+    for _ in 0..60 {
+        let mut q = vec![(*rng.pick(&["A", "N", "Df"])).to_string()];
+        for _ in 0..(2 + rng.below(4)) {
+            if rng.chance(1, 2) {
+                q.push(format!("{}{}", *rng.pick(&["l", "g", "k", "f", "a", "i"]), rng.below(2)));
+            } else {
+                q.push((*rng.pick(&lcalls)).to_string());
+            }
+        }
+        seqs.push(q.join("."));
+    }
+    for q in &seqs {
+        let recipe = format!("tree={} extra=3 sw=0 shape=0 pick=1 miss=0 dpos=1 up=0 seq={}", tseed, q);
+        let toks: Vec<&str> = recipe.split(' ').collect();
+        let obs = observe(&toks, &scratch);
+        writeln!(out, "C17 {} => {}", recipe, obs).unwrap();
+    }
+    // layer COUNTS around the thresholds of the standard sorting routines, default layer first / in the middle / last,
+    // full and partial loads (order is compared)
+    for &extra in &[0usize, 1, 2, 19, 20, 21, 22, 31, 32, 33, 34, 49, 64, 70] {
+        for dpos in [3usize, 2, 1] {
+            for q in ["A", "N.Fx", "A.Fx", "N.Ft", "N.D1", "A.Ft.D0"] {
+                let recipe = format!("tree={} extra={} sw=0 shape=0 pick=1 miss=0 dpos={} up=0 seq={}", tseed, extra, dpos, q);
                 let toks: Vec<&str> = recipe.split(' ').collect();
                 let obs = observe(&toks, &scratch);
                 writeln!(out, "C17 {} => {}", recipe, obs).unwrap();
